@@ -958,7 +958,7 @@ impl World {
                 cb.lics.push(Lic::Pair(sid, cid));
                 let uid = self.books[ai].as_ref().unwrap().uid;
                 self.handles[hi] = Some(HandleRec { h: hd, uid, set_id: sid, ptr_id: cid });
-                vec![1]
+                vec![1, sid as i64, cid as i64]
             }
             MOp::Fetch(r, s, h) => {
                 let hi = h as usize;
@@ -985,7 +985,8 @@ impl World {
                     self.alarms.push(format!("DynamicRootSet: contains={contains} try_fetch.is_ok={} fetch panicked={fpanic} disagree", got.is_some()));
                 }
                 if let Some(g) = got { setr(cb, r, Some(g)); }
-                vec![got.is_some() as i64, self.idr(ai, &got)]
+                let sid = self.uid_of(ai, &sp);
+                vec![got.is_some() as i64, self.idr(ai, &got), sid as i64]
             }
             MOp::IsDead(r) => {
                 let Some(fc) = cb.fc else { return vec![SKIP] };
